@@ -4,8 +4,13 @@ from xvlib import log
 from props.common import *
 from props.hmcommon import *
 
+_base_harnesses = harnesses
+def harnesses(tier):
+    return _base_harnesses(tier) + [('hm', ('XV_RECL=GC',), False, '_gc')]
 HARNESSES = harnesses('quick')
-LEVEL = 'exploration'
+THEOREM_NOTES = {
+    'scope': 'the theorems are about a step-level model of harris_michael_list_based_set (emplace / emplace_or_get, erase(key), contains / find incl. helping and restarts) over a reclaimer whose guards are single loads and that never reuses nodes (what C01 provides): list structure, abstraction (abstract set = keys of unmarked reachable nodes), linearization points, every returned result equals the sequential answer at a state inside the call, exactly one of racing erases succeeds, conservation at quiescence - for any number of threads, programs and schedules. harris_michael_hash_map with one bucket produces the same traces; multi-bucket maps, get_or_emplace(_lazy), operator[], erase(iterator) and the real reclaimers (ABA with reuse) are covered by the search only',
+}
 ASSUMPTIONS = [
     'SC interleavings only in this check; linearizability of every explored history is decided exactly (set/map specification incl. a final membership probe of every key)',
     'the reuse-allocator mode (--aba: a freed node is handed out again by the next allocation of the same size) is used to look for ABA; in the default mode freed nodes are quarantined and every access to them is a violation',
@@ -22,6 +27,14 @@ def run(ctx):
     Hs = ctx['H']
     run_corpus(ctx, Hs['hm_hp'], 'C08')
     n = 2000 if thorough else 250
+    # ---- tie: the list model (Model/HmlDefs.v) reproduces the implementation's traces (set over the GC reclaimer)
+    Hgc = Hs.pop('hm_gc')
+    cases = []
+    for k in range(12 if thorough else 6):
+        nk = 1 + k % 4
+        cases.append(({'c': 'set'}, [[('%s %d' % (rng.choice(['ins', 'ins', 'del', 'del', 'has']), rng.randrange(nk))) for _ in range(3 + k % 2)] for _ in range(2 + k % 2)]))
+    st = do_correspondence(ctx, 'hml', Hgc, cases, 10 if thorough else 6, 'harris_michael_list')
+    tie = tie_broken_sig(st, 'hml')
     for name, H in sorted(Hs.items()):
         jobs = []
         for cfg in (CONFIGS if thorough else rng.sample(CONFIGS, 4)):
@@ -34,4 +47,4 @@ def run(ctx):
             jobs.append((dict(cfg, aba='1'), [['ins 1', 'ins 10', 'ins 20', ('getins 5' if is_map else 'insget 5'), 'has 3', 'has 5'], ['del 10', 'ins 3', 'has 3']], 'random', 2 * n, ctx['seed'], ()))
             jobs.append((cfg, [hm_program(rng, 1, 24, keys=tuple(range(1, 9)), is_map=is_map)[0]], 'opseq', 1, ctx['seed'], ()))
         do_search(ctx, H, jobs, name, classify=lambda c, h, f, name=name: {'harness': name})
-    return None
+    return tie
